@@ -5,6 +5,7 @@ import (
 	"log"
 	"reflect"
 	"strconv"
+	"strings"
 
 	stackage "github.com/JesseCoretta/go-stackage"
 )
@@ -228,26 +229,15 @@ func (w *World) snapshot() []string {
 	return out
 }
 
-// field extracts one configuration field text from a dump string.
+// dumpField extracts one configuration field's text from a dump string.
 func dumpField(d, name string) string {
-	key := " " + name + "="
-	i := indexOf(d, key)
-	if i < 0 {
-		return ""
-	}
-	rest := d[i+len(key):]
-	// fields are separated by blanks; quoted strings may contain blanks
-	if len(rest) > 0 && rest[0] == '"' {
-		if q, err := strconv.QuotedPrefix(rest); err == nil {
-			return q
+	fields, _ := splitDump(d)
+	for _, f := range fields {
+		if strings.HasPrefix(f, name+"=") {
+			return f[len(name)+1:]
 		}
 	}
-	for j := 0; j < len(rest); j++ {
-		if rest[j] == ' ' {
-			return rest[:j]
-		}
-	}
-	return rest
+	return ""
 }
 
 func indexOf(s, sub string) int {
